@@ -322,6 +322,21 @@ def diagram_props(ctx, rounds):
         for si, fc in enumerate(fcsts):
             r = C.murphy_score(fc, obs, [float(p) for p in pts], **mkw)
             tot = r["total"].transpose("theta", "x").values
+            ov = r["overforecast"].transpose("theta", "x").values
+            un = r["underforecast"].transpose("theta", "x").values
+            fv = np.array([float(v) for v in fvals[si]])
+            ovv = np.array([float(v) for v in ovals])
+            # over-forecast penalty only where obs <= theta < fcst, under-forecast only where fcst <= theta < obs
+            for j, t in enumerate(pts):
+                in_over = (ovv <= float(t)) & (float(t) < fv)
+                in_under = (fv <= float(t)) & (float(t) < ovv)
+                bad_o = (ov[j] != 0) != in_over if fn == "quantile" else ((ov[j] != 0) & ~in_over)
+                bad_u = (un[j] != 0) != in_under if fn == "quantile" else ((un[j] != 0) & ~in_under)
+                if bad_o.any() or bad_u.any() or (ov[j] < 0).any() or (un[j] < 0).any() or not np.allclose(tot[j], ov[j] + un[j], atol=1e-12):
+                    ctx.violation("Murphy decomposition: penalty charged outside its region (over: obs <= theta < fcst, under: fcst <= theta < obs)",
+                                  dict(case, source=si, theta=t), {"in_over": in_over.tolist(), "in_under": in_under.tolist()},
+                                  {"overforecast": ov[j].tolist(), "underforecast": un[j].tolist(), "total": tot[j].tolist()})
+                    break
             m = len(th) - 1
             integ = np.zeros(n)
             for j in range(m):
@@ -343,6 +358,45 @@ def diagram_props(ctx, rounds):
         ctx.count("diagram_rounds")
 
 
+def guard_probes(ctx):
+    """documented parameter boundaries: alpha strictly inside (0,1), huber_a > 0 (huber only), left_limit_delta >= 0, known functional"""
+    C = S()
+    f = xr.DataArray([0.0, 1.0, 2.5], dims=["x"])
+    o = xr.DataArray([0.5, 1.0, -1.0], dims=["x"])
+    eps = 1.0 / 1024
+    probes = []
+    for fn in FUNCS:
+        hk = {"huber_a": 1.0} if fn == "huber" else {}
+        for a, ok in ((0.0, False), (1.0, False), (-eps, False), (1 + eps, False), (eps, True), (1 - eps, True)):
+            probes.append(("murphy_score", ([0.5],), dict(functional=fn, alpha=a, **hk), ok))
+    for h, ok in ((0.0, False), (-eps, False), (None, False), (eps, True)):
+        kw = {} if h is None else {"huber_a": h}
+        probes.append(("murphy_score", ([0.5],), dict(functional="huber", alpha=0.5, **kw), ok))
+        probes.append(("murphy_thetas", (), dict(functional="huber", **kw), ok))
+    probes.append(("murphy_score", ([0.5],), dict(functional="quantile", alpha=0.5, huber_a=-1.0), True))   # huber_a ignored for other functionals
+    probes.append(("murphy_score", ([0.5],), dict(functional="mean", alpha=0.5), False))
+    for d, ok in ((-eps, False), (0.0, True), (eps, True), (None, True)):
+        for fn in FUNCS:
+            kw = {"huber_a": 1.0} if fn == "huber" else {}
+            if d is not None:
+                kw["left_limit_delta"] = d
+            probes.append(("murphy_thetas", (), dict(functional=fn, **kw), ok))
+    for name, args, kw, ok in probes:
+        if name == "murphy_score":
+            st, val = core.call_impl(C.murphy_score, f, o, *args, **kw)
+        else:
+            kw = dict(kw)
+            fn = kw.pop("functional")
+            st, val = core.call_impl(C.murphy_thetas, [f], o, fn, **kw)
+            kw["functional"] = fn
+        ctx.case(("guard", name, repr(sorted(kw.items())), ok))
+        good = (st == "ok") if ok else (st == "err" and val == "err:ValueError")
+        if not good:
+            ctx.violation(f"{name}: parameter guard at the documented boundary", {"fn": name, "kwargs": kw}, "accepted" if ok else "ValueError", st if st == "ok" else val)
+    ctx.count("guard_probes", len(probes))
+
+
+
 def ragged_finding(ctx):
     C = S()
     f1 = xr.DataArray([[1.0, 2.0]], dims=["a", "b"])
@@ -360,6 +414,7 @@ def ragged_finding(ctx):
 def run(ctx):
     kernel_grid(ctx)
     ragged_finding(ctx)
+    guard_probes(ctx)
     diagram_props(ctx, ctx.n(40, 600))
     murphy_cases(ctx, ctx.n(220, 3000))
     thetas_cases(ctx, ctx.n(200, 3000))
